@@ -303,6 +303,7 @@ package db
 //
 // normalizeCDCValues: per column, the value reported by SQLite's preupdate hook becomes the CDC
 // value of the same kind and value, position and count preserved.
+//@ spec import lib/time
 //@ func normalizeCDCValues
 //@   safe
 //@   assert after @set:cdcRow.Values[i]#2: [int64-kept] typeis(cdcRow.Values[i].Value, "*rq/command/proto.CDCValue_I") && as(cdcRow.Values[i].Value, "*rq/command/proto.CDCValue_I").I == val
@@ -311,5 +312,45 @@ package db
 //@   assert after @set:cdcRow.Values[i]#5: [text-kept] typeis(cdcRow.Values[i].Value, "*rq/command/proto.CDCValue_S") && as(cdcRow.Values[i].Value, "*rq/command/proto.CDCValue_S").S == val
 //@   assert after @set:cdcRow.Values[i]#6: [blob-kept] typeis(cdcRow.Values[i].Value, "*rq/command/proto.CDCValue_Y") && as(cdcRow.Values[i].Value, "*rq/command/proto.CDCValue_Y").Y == val
 //@   assert after @set:cdcRow.Values[i]#8: [null-kept] cdcRow.Values[i] != nil && cdcRow.Values[i].Value == nil
-//@   loop 1 invariant [row] cdcRow != nil && len(cdcRow.Values) == len(row)
+//@   loop 1 invariant [row] cdcRow != nil && len(cdcRow.Values) == len(row) && fresh(cdcRow) && fresh(cdcRow.Values)
 //@   ensures [count] result1 == nil ==> (result0 != nil && len(result0.Values) == len(row))
+//
+// ---- C27: the event built from SQLite's preupdate data describes exactly that row change ---------------
+// convertFn (closure of RegisterPreUpdateHook): a table that the filter rejects yields no event;
+// otherwise the event names the table and carries the operation with the row ids SQLite reported
+// (INSERT: new id; UPDATE: both; DELETE: old id); in row-ids-only mode it carries no column values
+// at all; otherwise the old values (not for INSERT) and the new values (not for DELETE) are the
+// normalised rows read from the hook data, Count() values each.
+//@ spec import lib/sqlite3
+//@ func (*DB) RegisterPreUpdateHook$convertFn
+//@   ghost var oldV int = 0
+//@   ghost var newV int = 0
+//@   ghost var oldRead bool = false
+//@   ghost var newRead bool = false
+//@   ghost var cnt int = 0
+//@   ghost update @d.Count: cnt = result
+//@   ghost update @d.Old: oldRead = (result == nil)
+//@   ghost update @d.New: newRead = (result == nil)
+//@   assert @normalizeCDCValues#1: [old-values-read-from-hook] oldRead && arg0 == oldRow && len(oldRow) == cnt && d.Op != sqlite3.SQLITE_INSERT
+//@   ghost update @normalizeCDCValues#1: oldV = result0
+//@   assert @normalizeCDCValues#2: [new-values-read-from-hook] newRead && arg0 == newRow && len(newRow) == cnt && d.Op != sqlite3.SQLITE_DELETE
+//@   ghost update @normalizeCDCValues#2: newV = result0
+//@   ghost var lastM bool = false
+//@   ghost update @tableMatch.Get: lastM = result0
+//@   ghost update after @set:m: lastM = m
+//@   assert @tableMatch.Get: [filter-by-this-table] arg0 == d.TableName
+//@   assert @tblRe.MatchString: [filter-by-this-table] arg0 == d.TableName
+//@   assert @return#1: [filtered-table-no-event] tblRe != nil && !lastM && result0 == nil && result1 == nil
+//@   assert @def:ev: [event-only-for-admitted-table] tblRe == nil || lastM
+//@   assert @return#2: [unknown-operation-is-an-error] result1 != nil && result0 != nil
+//@   assert @return#3: [row-ids-only-no-values] rowIDsOnly && result1 == nil && result0 != nil && result0.Table == d.TableName && result0.OldRow == nil && result0.NewRow == nil && (d.Op == sqlite3.SQLITE_INSERT ==> (result0.Op == proto.CDCEvent_INSERT && result0.NewRowId == d.NewRowID)) && (d.Op == sqlite3.SQLITE_UPDATE ==> (result0.Op == proto.CDCEvent_UPDATE && result0.NewRowId == d.NewRowID && result0.OldRowId == d.OldRowID)) && (d.Op == sqlite3.SQLITE_DELETE ==> (result0.Op == proto.CDCEvent_DELETE && result0.OldRowId == d.OldRowID))
+//@   assert @return#8: [event-describes-the-change] !rowIDsOnly && result1 == nil && result0 != nil && result0.Table == d.TableName && (d.Op == sqlite3.SQLITE_INSERT ==> (result0.Op == proto.CDCEvent_INSERT && result0.NewRowId == d.NewRowID && result0.OldRow == nil && result0.NewRow == newV)) && (d.Op == sqlite3.SQLITE_UPDATE ==> (result0.Op == proto.CDCEvent_UPDATE && result0.NewRowId == d.NewRowID && result0.OldRowId == d.OldRowID && result0.OldRow == oldV && result0.NewRow == newV)) && (d.Op == sqlite3.SQLITE_DELETE ==> (result0.Op == proto.CDCEvent_DELETE && result0.OldRowId == d.OldRowID && result0.OldRow == oldV && result0.NewRow == nil))
+//
+// cb (the callback handed to SQLite): no event for a filtered table (the hook is not called); every
+// other change reaches the hook exactly once with the event built for it; a conversion error is
+// recorded on the event; the callback never dereferences a missing event.
+//@ func (*DB) RegisterPreUpdateHook$cb
+//@   safe
+//@   ghost var nHook int = 0
+//@   assert @hook: [hook-once-with-the-event] nHook == 0 && arg0 == ev && ev != nil
+//@   ghost update @hook: nHook = nHook + 1
